@@ -15,6 +15,7 @@ CONSTANTS
   CancelCalls = {1, 2, 3, 4, 5, 6}
   EnvTClose = TRUE
   OrderedStart = FALSE
+  Eager = FALSE
   WithHist = FALSE
 CONSTRAINT HWM
 POSTCONDITION Accepted
